@@ -17,7 +17,13 @@ type ColAuto struct {
 // Infer and initialize Column from ColumnType.
 func (c *ColAuto) Infer(t ColumnType) error {
 	if c.Data != nil && !c.Type().Conflicts(t) {
-		// Already ok.
+		// Already ok, but type parameters (e.g. precision, timezone or enum
+		// values) can differ, so underlying column should adopt them.
+		if v, ok := c.Data.(Inferable); ok {
+			if err := v.Infer(t); err != nil {
+				return errors.Wrap(err, "infer")
+			}
+		}
 		c.DataType = t // update subtype if needed
 		return nil
 	}
